@@ -81,7 +81,7 @@ def ghz(dim: int, num_qubits: int, coeff: list[int] | None = None) -> np.ndarray
         coeff = coeff / norm
 
     # Initialize the GHZ state vector.
-    ghz_state = np.zeros((dim**num_qubits, 1))
+    ghz_state = np.zeros((dim**num_qubits, 1), dtype=np.result_type(coeff.dtype, float))
     # Fill the state vector with the corresponding coefficients.
     for i in range(dim):
         # Calculate the index for the tensor product state |i, i, ..., i>.
